@@ -24,14 +24,23 @@ U = 'U'  # unknown
 class BoolClient(Client):
     """Abstract interpretation of the per-PDV body of DIMSEDecoder.process over booleans.
 
-    State: frozenset of (name, value) for the tracked decoder flags and locals; value is
-    True / False / an int (marker).  ``no_ds`` and ``use_file`` are inputs: assignments to
-    them are ignored (the abstract input value stands for whatever the command set says).
+    State: frozenset of (name, value) for the tracked decoder flags and every local; value is
+    True / False / an int (marker) / U.  The abstract input ``$no_ds`` stands for "the command set says
+    there is no data set": it is the value of any comparison of something with 0101H
+    (CommandDataSetType, PS3.7 6.3.1), whichever local that comparison is bound to, if any.
     Everything else (appends, joins, decode, callbacks) has no influence on the flags."""
-    INPUTS = ('no_ds', 'use_file')
+    NO_DATASET = 0x0101
 
     def __init__(self, tracked):
         self.tracked = tracked
+
+    def nods_polarity(self, e):
+        """True for ``x == 0101H``, False for ``x != 0101H``, None for anything else."""
+        if isinstance(e, ast.Compare) and len(e.ops) == 1 and isinstance(e.ops[0], (ast.Eq, ast.NotEq)):
+            for side in (e.left, e.comparators[0]):
+                if isinstance(side, ast.Constant) and side.value == self.NO_DATASET and not isinstance(side.value, bool):
+                    return isinstance(e.ops[0], ast.Eq)
+        return None
 
     @staticmethod
     def get(state, name):
@@ -57,6 +66,13 @@ class BoolClient(Client):
     def value(self, e, state):
         if isinstance(e, ast.Constant):
             return e.value
+        pol = self.nods_polarity(e)
+        if pol is not None:
+            v = self.get(state, '$no_ds')
+            return U if v is U else (bool(v) if pol else not v)
+        if isinstance(e, ast.UnaryOp) and isinstance(e.op, ast.Not):
+            v = self.value(e.operand, state)
+            return U if v is U else not v
         n = self.name_of(e)
         if n is not None:
             return self.get(state, n)
@@ -68,13 +84,13 @@ class BoolClient(Client):
     def stmt(self, st, state):
         if isinstance(st, ast.Assign) and len(st.targets) == 1:
             n = self.name_of(st.targets[0])
-            if n is not None and n in self.tracked and n not in self.INPUTS:
+            if n is not None and (n in self.tracked or isinstance(st.targets[0], ast.Name)):
                 v = self.value(st.value, state)
                 if isinstance(v, bool):
                     return [self.put(state, n, v)]
                 if n == 'self.receiving':
                     raise AnalysisError('receiving assigned a non-constant at line %d' % st.lineno)
-                return [self.put(state, n, U)] if n in self.tracked else [state]
+                return [self.put(state, n, U)]
         return [state]
 
     def atom_branch(self, test, state):
@@ -85,11 +101,14 @@ class BoolClient(Client):
             return [], [state]
         # unknown: both; refine tracked plain names
         n = self.name_of(test)
-        if n is not None and n in self.tracked:
+        if n is not None and (n in self.tracked or isinstance(test, ast.Name)):
             return [self.put(state, n, True)], [self.put(state, n, False)]
         return [state], [state]
 
     def decide(self, test, state):
+        if self.nods_polarity(test) is not None:
+            v = self.value(test, state)
+            return None if v is U else v
         n = self.name_of(test)
         if n is not None:
             v = self.get(state, n)
@@ -163,7 +182,7 @@ def run(repo, rep):
     loop, item = process_loop(proc)
 
     # ---------------------------------------------------------------- D3
-    tracked = {'self.command_set_received', 'self.data_set_received', 'self.receiving', 'marker', 'no_ds', 'use_file',
+    tracked = {'self.command_set_received', 'self.data_set_received', 'self.receiving', 'marker',
                'self._dataset_fp', 'self._encoded_data_set'}
     # the marker variable
     marker_var = None
@@ -182,11 +201,8 @@ def run(repo, rep):
                     if cmd_done and (no_ds or data_done):
                         continue  # already complete: the decoder is discarded (D4)
                     n_cases += 1
-                    pre = frozenset({('self.command_set_received', cmd_done), ('self.data_set_received', data_done),
-                                     ('self.receiving', True), (marker_var, marker), ('no_ds', no_ds)}.items()
-                                    if False else [('self.command_set_received', cmd_done), ('self.data_set_received', data_done),
-                                                   ('self.receiving', True), (marker_var, marker), ('no_ds', no_ds)])
-                    cl = BoolClient(tracked)
+                    pre = frozenset([('self.command_set_received', cmd_done), ('self.data_set_received', data_done),
+                                     ('self.receiving', True), (marker_var, marker), ('$no_ds', no_ds)])
 
                     class _C(BoolClient):
                         def stmt(self_inner, st, state):
@@ -254,21 +270,33 @@ def run(repo, rep):
     # ---------------------------------------------------------------- D2
     p2 = []
     n_strip = 0
-    ctrl = 1
-    for n in ast.walk(loop):
-        if isinstance(n, ast.Call) and not (isinstance(n.func, ast.Attribute) and n.func.attr == 'indexbytes') \
-                and norm(n.func) not in ('six.indexbytes', 'len'):
-            a = n.args[0] if n.args else None
-            if a is not None and 'data_value' in norm(a):
-                n_strip += 1
-                ok = isinstance(a, ast.Subscript) and isinstance(a.slice, ast.Slice) and a.slice.upper is None and \
-                    isinstance(a.slice.lower, ast.Constant) and a.slice.lower.value == ctrl and norm(a.value) == '%s.data_value' % item
-                if not ok:
-                    p2.append('%s keeps %s, not the value without its one control byte' % (norm(n.func), norm(a)))
-            if isinstance(n.func, ast.Attribute) and n.func.attr == 'append' and not (attr_chain(n.func.value) or ('',))[0] == 'self':
-                p2.append('fragments appended to a non-decoder list %s' % norm(n.func.value))
-        if isinstance(n, ast.Call) and isinstance(n.func, ast.Attribute) and n.func.attr in ('insert', 'appendleft'):
-            p2.append('fragments are not kept in arrival order (%s)' % norm(n.func))
+    # provenance: every fragment kept (list append / file write) is <this PDV>.data_value[1:], whatever locals
+    # the value passes through
+
+    def ev2(call, callee, client, state):
+        last = callee.rsplit('.', 1)[-1]
+        if last in ('append', 'write', 'insert', 'appendleft', 'extend'):
+            return 'keep:' + last
+        return None
+    c2 = SymClient(repo, proc, event_of=ev2, hierarchy=hier)
+    c2.run(empty_state())
+    item_term = 'ITEM(%s.data_value_items)' % (proc.params[1] if len(proc.params) > 1 else 'p_data')
+    want_term = '%s.data_value[1:]' % item_term
+    seen_sites = set()
+    for e_, _s in c2.log:
+        if not e_.kind.startswith('keep:') or (e_.line, e_.callee) in seen_sites:
+            continue
+        seen_sites.add((e_.line, e_.callee))
+        if not any('data_value' in a_ for a_ in e_.args):
+            continue
+        n_strip += 1
+        if e_.kind in ('keep:insert', 'keep:appendleft'):
+            p2.append('fragments are not kept in arrival order (%s)' % e_.callee)
+            continue
+        if e_.args[0] != want_term:
+            p2.append('%s keeps %s, not the value without its one control byte' % (e_.callee, e_.args[0]))
+        if e_.kind == 'keep:append' and not e_.callee.startswith('self.'):
+            p2.append('fragments appended to a non-decoder list %s' % e_.callee.rsplit('.', 1)[0])
     if n_strip < 2:
         p2.append('only %d fragment-store sites found' % n_strip)
     joins = [n for n in ast.walk(proc.node) if isinstance(n, ast.Call) and isinstance(n.func, ast.Attribute) and n.func.attr == 'join']
@@ -382,21 +410,23 @@ def run(repo, rep):
                     '%s (command field %04XH) is not reachable through MESSAGE_TYPE' % (c.name, cf))
     # no_ds source
     p5 = []
-    no_ds_assign = [n for n in ast.walk(proc.node) if isinstance(n, ast.Assign) and isinstance(n.targets[0], ast.Name)
-                    and n.targets[0].id == 'no_ds']
-    if len(no_ds_assign) != 1:
-        p5.append('no_ds assigned %d times' % len(no_ds_assign))
-    else:
-        v = no_ds_assign[0].value
-        ok = isinstance(v, ast.Compare) and isinstance(v.ops[0], ast.Eq)
-        if ok:
-            tag = None
-            for n in ast.walk(v.left):
-                if isinstance(n, ast.Subscript):
-                    tag = repo.try_fold(n.slice, fsm, dec)
-            rhs = repo.try_fold(v.comparators[0], fsm, dec)
-            ok = tag == (0x0000, 0x0800) and rhs == 0x0101
-        if not ok:
+    bc = BoolClient(set())
+    cmps = [n for n in ast.walk(proc.node) if isinstance(n, ast.Compare) and bc.nods_polarity(n) is not None]
+    # any other comparison of the CommandDataSetType element is not the PS3.7 test
+    for n in ast.walk(proc.node):
+        if isinstance(n, ast.Compare) and n not in cmps:
+            for sub in ast.walk(n):
+                if isinstance(sub, ast.Subscript) and repo.try_fold(sub.slice, fsm, dec) == (0x0000, 0x0800):
+                    p5.append('no-data-set flag computed as %s, PS3.7: (0000,0800) == 0101H' % norm(n))
+    if len(cmps) != 1:
+        p5.append('%d comparisons with 0101H (no data set) in process(), expected one' % len(cmps))
+    for v in cmps:
+        other = v.comparators[0] if isinstance(v.left, ast.Constant) else v.left
+        tag = None
+        for n in ast.walk(other):
+            if isinstance(n, ast.Subscript):
+                tag = repo.try_fold(n.slice, fsm, dec)
+        if tag != (0x0000, 0x0800):
             p5.append('no-data-set flag computed as %s, PS3.7: (0000,0800) == 0101H' % norm(v))
     lookups = [n for n in ast.walk(dec.find_method('_command_set_to_message').node) if isinstance(n, ast.Subscript)] \
         if dec.find_method('_command_set_to_message') else []
@@ -423,8 +453,6 @@ def run(repo, rep):
     for e, s in cbs:
         if not e.args or e.args[0] != 'self.accepted_contexts[%s.context_id]' % ('ITEM(p_data.data_value_items)'):
             p6.append('callback receives context %s, not the accepted context of this PDV\'s context id' % (e.args[0] if e.args else None))
-        if not any(cn in ('-no_ds', '+not no_ds') or cn.startswith('-ITEM') or 'no_ds' in cn for cn in e.conds):
-            pass
     seeks = [(e, s) for e, s in c.log if e.kind == 'seek']
     if not any(e.args and '[1]' in e.args[0] and 'get_file_cb' in e.args[0] for e, s in seeks):
         p6.append('the file is not rewound to the start position returned by the callback')
